@@ -168,7 +168,36 @@ def run_check(prop, tag):
             "seconds": round(time.time() - t0)}
 
 
+def seeded(ids):
+    """bugs seeded by independent agents: /verif/seeded/<id>/patch.diff applied to the scratch copy; property = id prefix"""
+    os.makedirs(OUT, exist_ok=True)
+    sh("git -C %s checkout -- ." % WT)
+    rp = os.path.join(OUT, "seeded_report.json")
+    report = json.load(open(rp)) if os.path.exists(rp) else {}
+    if "baseline" not in report:
+        PLAYBACK_FOR.add("baseline")
+        report["baseline"] = {p: run_check(p, "baseline") for p in ("C05", "C06", "C07")}
+        json.dump(report, open(rp, "w"), indent=1)
+    for sid in ids:
+        prop = sid.split("-")[0]
+        a = sh("git -C %s apply /verif/seeded/%s/patch.diff" % (WT, sid))
+        if a.returncode != 0:
+            report[sid] = {"error": "patch does not apply: " + a.stdout[-200:]}
+        else:
+            PLAYBACK_FOR.add("seed_" + sid)
+            r = run_check(prop, "seed_" + sid)
+            base = set(report["baseline"][prop]["roles"])
+            r.update(property=prop, new_roles=sorted(set(x for x in r["roles"] if x not in base)))
+            r["caught"] = bool(r["new_roles"])
+            report[sid] = r
+        sh("git -C %s checkout -- ." % WT)
+        json.dump(report, open(rp, "w"), indent=1)
+        print(sid, json.dumps(report[sid])[:700], flush=True)
+
+
 def main():
+    if "--seeded" in sys.argv:
+        return seeded(sys.argv[sys.argv.index("--seeded") + 1].split(","))
     os.makedirs(OUT, exist_ok=True)
     only = None
     for a in sys.argv[1:]:
